@@ -38,6 +38,27 @@ def parseLabel : List String → Option Label
   | ["end", i] => i.toNat?.map .pollEnd
   | _ => none
 
+def showDRes : DRes → String
+  | .ok => "ok"
+  | .refused => "refused"
+  | .returned => "returned"
+  | .parked => "parked"
+  | .disconnected => "disconnected"
+  | .disabled => "disabled"
+
+/-- Agent-level ops (real Agent.doPoll): reset-agent | asleep | awake | dpstart | dprelease -> <res> st=<STATE> -/
+def dstepLine (d : DS) (line : String) : Option (DS × String) :=
+  let go (l : DLabel) : Option (DS × String) :=
+    let (d', res, _) := dstep d l
+    some (d', s!"{showDRes res} st={showSt d'.st}")
+  match tokens line with
+  | ["reset-agent"] => some (DS.init, "ok")
+  | ["asleep"] => go .sleep
+  | ["awake"] => go .wake
+  | ["dpstart"] => go .dpStart
+  | ["dprelease"] => go .dpRelease
+  | _ => none
+
 def stepLine (s : S) (line : String) : S × String :=
   match tokens line with
   | ["reset", n] => (S.init (n.toNat?.getD 1), "ok")
@@ -76,6 +97,9 @@ def specStep (s : SpecSt) (line : String) (implOut : String) : SpecSt × String 
   if implOut.startsWith "panic" || implOut.startsWith "crash" then (s, "fail crashed") else
   match tokens line, tokens implOut with
   | ["reset", n], _ => (SpecSt.init (n.toNat?.getD 1), "ok")
+  | ["reset-agent"], _ => (s, "ok")
+  | ["dprelease"], ["disconnected", "st=AWAKE"] => (s, "fail stale-dopoll-disconnects-awake-agent")
+  | [op], [_, _] => if op == "asleep" || op == "awake" || op == "dpstart" || op == "dprelease" then (s, "ok") else (s, "ok")
   | op :: args, [res, stTok, fileTok, evTok] =>
     let st := field stTok "st="
     let file := field fileTok "file="
@@ -109,6 +133,9 @@ def main (args : List String) : IO Unit :=
   | ["spec"] => runLines (SpecSt.init 1) (fun s l => match l.splitOn "\t" with
       | [op, out] => specStep s op out
       | _ => (s, "bad-op"))
-  | _ => runLines (S.init 1) stepLine
+  | _ => runLines (S.init 1, DS.init) (fun (s, d) l =>
+      match dstepLine d l with
+      | some (d', out) => ((s, d'), out)
+      | none => let (s', out) := stepLine s l; ((s', d), out))
 
 end MM.Engine.C30
